@@ -93,7 +93,9 @@ const (
 )
 
 func c16Entries() []c16Entry {
-	name := func(s string) ap.NaturalLanguageValues { return ap.NaturalLanguageValues{{Ref: "-", Value: ap.Content(s)}} }
+	name := func(s string) ap.NaturalLanguageValues {
+		return ap.NaturalLanguageValues{{Ref: "-", Value: ap.Content(s)}}
+	}
 	es := []c16Entry{
 		{name: "iri-a", ident: c16IDa, mk: func() ap.Item { return ap.IRI(c16IDa) }},
 		{name: "iri-b", ident: c16IDb, mk: func() ap.Item { return ap.IRI(c16IDb) }},
@@ -104,7 +106,9 @@ func c16Entries() []c16Entry {
 		{name: "*activity-b", ident: c16IDb, want: "iri:" + c16IDb, mk: func() ap.Item { return &ap.Activity{ID: c16IDb, Type: ap.CreateType, Object: ap.IRI(c16IDa)} }},
 		{name: "*obj-noid", ident: "", mk: func() ap.Item { return &ap.Object{Type: ap.NoteType, Name: name("anonymous")} }},
 		{name: "*obj-noid2", ident: "", mk: func() ap.Item { return &ap.Object{Type: ap.NoteType, Name: name("another anonymous")} }},
-		{name: "*link", ident: "https://example.com/l", mk: func() ap.Item { return &ap.Link{ID: "https://example.com/l", Type: ap.MentionType, Href: "https://example.com/h"} }},
+		{name: "*link", ident: "https://example.com/l", mk: func() ap.Item {
+			return &ap.Link{ID: "https://example.com/l", Type: ap.MentionType, Href: "https://example.com/h"}
+		}},
 		{name: "*link-noid", ident: "", mk: func() ap.Item { return &ap.Link{Type: ap.LinkType, Href: "https://example.com/h2"} }},
 	}
 	for i := range es {
